@@ -288,6 +288,8 @@ type instantiator struct {
 	boundMap    map[boundParam]int
 	instances   []*instance
 	instanceMap *container.IntSliceMap[*instance] // [nonterm, boundParam #1, ...] ->
+
+	sets map[*TokenSet]*TokenSet // rewritten token sets; named sets can share nodes and refer to themselves
 }
 
 func (i *instantiator) resolveInstance(context *instance, nonterm int, args []Arg) *instance {
@@ -323,6 +325,12 @@ func (i *instantiator) allocate(key []int) *instance {
 }
 
 func (i *instantiator) doSet(set *TokenSet) *TokenSet {
+	if ret, ok := i.sets[set]; ok {
+		return ret
+	}
+	if i.sets == nil {
+		i.sets = make(map[*TokenSet]*TokenSet)
+	}
 	switch set.Kind {
 	case Any, First, Last, Precede, Follow:
 		if nt := set.Symbol - len(i.m.Terminals); nt >= 0 {
@@ -334,12 +342,14 @@ func (i *instantiator) doSet(set *TokenSet) *TokenSet {
 		}
 		return set
 	}
-	ret := *set
+	ret := new(TokenSet)
+	*ret = *set
+	i.sets[set] = ret // before descending: the set can be reachable from itself
 	ret.Sub = make([]*TokenSet, 0, len(set.Sub))
 	for _, sub := range set.Sub {
 		ret.Sub = append(ret.Sub, i.doSet(sub))
 	}
-	return &ret
+	return ret
 }
 
 func (i *instantiator) check(context *instance, p *Predicate) bool {
